@@ -8,7 +8,7 @@ from ..oracles import check_seeds
 
 class C05(Machine):
     ID = "C05"
-    FAMILY_WEIGHTS = {"sparse": 3, "dense": 1, "canal": 3, "modular": 4, "maa": 4, "cascade": 2, "degenerate": 1, "maa_deadpad": 1, "inputs_mix": 2}
+    FAMILY_WEIGHTS = {"sparse": 3, "dense": 1, "canal": 3, "modular": 4, "maa": 4, "cascade": 2, "degenerate": 1, "maa_deadpad": 1, "inputs_mix": 2, "osc_latches": 2}
     NMAX = {"quick": 6, "thorough": 8}
 
     def gen_params(self, sc, rng):
